@@ -6,6 +6,7 @@ Pure stdlib + stackscope; Python 3.9 syntax.  Used by C01, C02, C06, C08, C20.
 import ast
 import gc
 import linecache
+import functools
 import sys
 import types
 import warnings
@@ -372,11 +373,43 @@ def probe(k, where=None):
         del st
     if "pure" in S.modes:
         fr = S.fr[0]
+        snapshot_bound_check(fr, where)
         tracked = [m for m, _e in S.sh] + [fr]
         # the callers' own frames advance between two calls (different line), so only the frame under
         # test - which has not moved - is compared
         retention_check(lambda: extract_since(fr), tracked, where,
                         compare_equal=lambda a, b: bool(a.frames) and bool(b.frames) and a.frames[0] == b.frames[0])
+
+
+def snapshot_bound_check(fr, where):
+    """A frame that is running (in the middle of a call) only keeps alive the value-stack slots below the depth of
+    the exception-table entry covering its current instruction (none: 0); anything above is dead memory.  The
+    low-level snapshot of such a frame must not read beyond that (CPython >= 3.11; the table is parsed here by the
+    standard library's own `dis`, not by the code under test)."""
+    if PY < (3, 11):
+        return
+    import dis
+    import stackscope.lowlevel as ll
+    from stackscope._lowlevel_cpython_311 import FrameObject
+    if FrameObject.from_address(id(fr)).f_frame.contents.stacktop != -1:
+        # the frame saved its stack pointer (it made an inlined Python call): everything below it is alive
+        S.bump("pure.snapshot_frame_with_saved_stack_pointer")
+        return
+    live = 0
+    for e in dis._parse_exception_table(fr.f_code):
+        if e.start <= fr.f_lasti < e.end:
+            live = e.depth
+            break
+    try:
+        d = ll.inspect_frame(fr)
+    except BaseException as ex:
+        add_obs("pure.inspect_frame_raised", where, exc=repr(ex))
+        return
+    S.bump("pure.snapshot_bound_checks")
+    if live == 0:
+        S.bump("pure.snapshot_bound_checks_at_uncovered_position")
+    if len(d.stack) > live:
+        add_obs("pure.snapshot_reads_dead_value_stack_slots", where, read=len(d.stack), live=live)
 
 
 class M:
@@ -757,7 +790,9 @@ class R:
             else:
                 self.emit(ind, "probe(%d)" % k)
         elif t == "probe":
-            self.emit(ind, "probe(%d)" % s["k"])
+            # every other probe is reached through a C-level callable: the frame under test is then in the middle of
+            # a C call (its interpreter frame has no saved stack pointer), not of an inlined Python-to-Python call
+            self.emit(ind, ("cprobe(%d)" if s["k"] % 2 else "probe(%d)") % s["k"])
         elif t == "noop":
             self.emit(ind, "noop()")
         elif t == "ret":
@@ -937,7 +972,7 @@ def compile_program(prog):
     src = r.render()
     fname = "<g1-prog>"
     linecache.cache[fname] = (len(src), None, src.splitlines(True), fname)
-    ns = {"M": M, "AM": AM, "MAlias": MAlias, "AMAlias": AMAlias, "MDeco": MDeco, "AMDeco": AMDeco, "MDual": MDual, "AMDual": AMDual, "E1": E1, "E2": E2, "NS": NS, "trap": trap, "probe": probe, "noop": noop,
+    ns = {"M": M, "AM": AM, "MAlias": MAlias, "AMAlias": AMAlias, "MDeco": MDeco, "AMDeco": AMDeco, "MDual": MDual, "AMDual": AMDual, "E1": E1, "E2": E2, "NS": NS, "trap": trap, "probe": probe, "cprobe": functools.partial(probe), "noop": noop,
           "FR": S.fr, "sys": sys, "tick": tick, "S": S, "kwget": kwget, "pick": pick, "GV": None,
           "__name__": "g1prog"}
     with warnings.catch_warnings():
